@@ -19,6 +19,13 @@
 (*   counts     all, live, hasdel   doc_count_all / doc_count / has_deletions    *)
 (*   terminfo   f, t, df, tf, minid, maxid, maxw   reader.term_info(f, t)        *)
 (*   livekeys   keys, ops       stored keys of all live documents vs. the operations   *)
+(*   termsfrom  flex = [[field, lexicon]..] (fields ascending), fi, p, got = [[field#, term]..]          *)
+(*              all_terms / terms_from / iter_from: every (field, term) >= (field fi, p), in order        *)
+(*   fieldterms f, lex, p, mode, terms[, infos]   expand_prefix / iter_prefix (mode prefix), iter_field /  *)
+(*              field_terms (mode from): the part of the field's lexicon with the prefix / from p on     *)
+(*   mostfrequent f, lex, p, n, list = [[weight, term]..]   most_frequent_terms                          *)
+(*   termfreq   f, t, frequency, doc_frequency, first_id ; termfreq0: an absent term                     *)
+(*   docids     all_doc_ids, iter_docs                                                                   *)
 (*   flag       value           a recorded boolean fact                          *)
 (*   error      ...             an exception from a read API                     *)
 EXTENDS QuerySem, Json, IOUtils
@@ -65,6 +72,27 @@ WeightList(idx, f, t) ==
   IN [i \in DOMAIN ids |-> <<ids[i], W(idx, ids[i], f, t)>>]
 SumW(wl) == LET RECURSIVE S(_) S(i) == IF i = 0 THEN 0 ELSE S(i - 1) + wl[i][2] IN S(Len(wl))
 
+\* ---- term iteration, relative to the lexicon the reader lists for each field -------------------------
+SeqLE(a, b) == a = b \/ SeqLess(a, b)
+RECURSIVE ConcatAll(_)
+ConcatAll(ss) == IF ss = <<>> THEN <<>> ELSE Head(ss) \o ConcatAll(Tail(ss))
+TermsFrom(flex, fi, p) ==
+  ConcatAll([i \in DOMAIN flex |->
+     IF i < fi THEN <<>>
+     ELSE LET lex == IF i = fi THEN SelectSeq(flex[i][2], LAMBDA t : SeqLE(p, t)) ELSE flex[i][2]
+          IN [j \in DOMAIN lex |-> <<i, lex[j]>>]])
+FieldTerms(lex, p, mode) == IF mode = "prefix" THEN SelectSeq(lex, LAMBDA t : IsPrefixOf(p, t))
+                            ELSE SelectSeq(lex, LAMBDA t : SeqLE(p, t))
+\* (document frequency, total weight) of a term as stored; asserted on an index without deletions (see terminfo)
+InfoOK(idx, f, t, df, tf) == LET pl == WeightList(idx, f, t) IN df = Len(pl) /\ tf = SumW(pl)
+\* most_frequent_terms: the n heaviest terms with the prefix, heaviest first, ties by descending term
+MostFrequent(idx, f, lex, p, n) ==
+  LET cand == ToSet(SelectSeq(lex, LAMBDA t : IsPrefixOf(p, t)))
+      w(t) == SumW(WeightList(idx, f, t))
+      ord == SetToSortSeq(cand, LAMBDA a, b : w(a) > w(b) \/ (w(a) = w(b) /\ SeqLess(b, a)))
+      top == IF Len(ord) <= n THEN ord ELSE SubSeq(ord, 1, n)
+  IN [i \in DOMAIN top |-> <<w(top[i]), top[i]>>]
+
 StoredOf(idx, d) == LET S == Doc(idx, d).s IN [f \in {g \in DOMAIN S : S[g] # 0} |-> S[f]]
 ColOf(idx, d, f) == IF f \in DOMAIN Doc(idx, d).c THEN Doc(idx, d).c[f] ELSE 0
 
@@ -84,6 +112,11 @@ Expected(idx, o) ==
     [] o.kind = "terminfo" -> [df |-> Len(PostingList(idx, o.f, o.t))]
     [] o.kind = "livekeys" -> [keys |-> ModelLive(o.ops, Len(o.ops))]
     [] o.kind = "grouporder" -> [groups_contiguous_and_in_order |-> TRUE]
+    [] o.kind = "termsfrom" -> [got |-> TermsFrom(o.flex, o.fi, o.p)]
+    [] o.kind = "fieldterms" -> [terms |-> FieldTerms(o.lex, o.p, o.mode)]
+    [] o.kind = "mostfrequent" -> [list |-> MostFrequent(idx, o.f, o.lex, o.p, o.n)]
+    [] o.kind = "termfreq" -> [postings |-> WeightList(idx, o.f, o.t)]
+    [] o.kind = "docids" -> [ids |-> SetToSortSeq(Live(idx), <)]
     [] OTHER -> [ok |-> TRUE]
 
 
@@ -123,6 +156,25 @@ ObsOK(idx, o) ==
          IN \A g \in DOMAIN o.groups :
               LET grp == SelectSeq(o.groups[g], LAMBDA k : k \in ToSet(order))
               IN grp = <<>> \/ \E i \in 1 .. Len(order) - Len(grp) + 1 : SubSeq(order, i, i + Len(grp) - 1) = grp
+    [] o.kind = "termsfrom" ->
+         /\ [i \in DOMAIN o.got |-> <<o.got[i][1], o.got[i][2]>>] = TermsFrom(o.flex, o.fi, o.p)
+         /\ ("infos" \in DOMAIN o /\ o.nodel) =>
+               \A i \in DOMAIN o.infos : InfoOK(idx, o.flex[o.infos[i][1]][1], o.infos[i][2], o.infos[i][3], o.infos[i][4])
+    [] o.kind = "fieldterms" ->
+         /\ [i \in DOMAIN o.terms |-> o.terms[i]] = FieldTerms(o.lex, o.p, o.mode)
+         /\ ("infos" \in DOMAIN o /\ o.nodel) =>
+               \A i \in DOMAIN o.infos : InfoOK(idx, o.f, o.infos[i][1], o.infos[i][2], o.infos[i][3])
+    [] o.kind = "mostfrequent" ->
+         o.nodel => [i \in DOMAIN o.list |-> <<o.list[i][1], o.list[i][2]>>] = MostFrequent(idx, o.f, o.lex, o.p, o.n)
+    [] o.kind = "termfreq" ->
+         LET pl == PostingList(idx, o.f, o.t) IN
+         /\ o.nodel => InfoOK(idx, o.f, o.t, o.doc_frequency, o.frequency)
+         /\ o.first_id = (IF pl = <<>> THEN -1 ELSE pl[1][1])       \* -1: TermNotFound (no live document has it)
+    [] o.kind = "termfreq0" -> o.frequency = 0 /\ o.doc_frequency = 0
+    [] o.kind = "docids" ->
+         LET ids == SetToSortSeq(Live(idx), <) IN
+         /\ [i \in DOMAIN o.all_doc_ids |-> o.all_doc_ids[i]] = ids
+         /\ [i \in DOMAIN o.iter_docs |-> o.iter_docs[i]] = ids
     [] o.kind = "flag" -> o.value
     [] o.kind = "error" -> FALSE
 
